@@ -308,7 +308,7 @@ def r5(ctx: Context, sites) -> None:
     if g is None:
         raise AnalysisError("anchor-vanished: _is_authorize_by_concurrency_control")
     first_if = [n for n in g.node.body if isinstance(n, ast.If)]
-    ok = bool(first_if) and ast.unparse(first_if[0].test).replace(" ", "") == "invocation.task.conf.running_concurrency==ConcurrencyControlType.DISABLED" and ast.unparse(first_if[0].body[0]) == "return True"
+    ok = bool(first_if) and ast.unparse(first_if[0].test).replace(" ", "") == f"{g.params[1]}.task.conf.running_concurrency==ConcurrencyControlType.DISABLED" and ast.unparse(first_if[0].body[0]) == "return True"
     ctx.add("R5", "guard::short-circuit-only-for-DISABLED", ok, g.loc(), "" if ok else "the guard returns early under another condition than running_concurrency == DISABLED")
     look = [c for c in calls_in(g.node) if call_name(c) == "get_existing_invocations"]
     ok = len(look) == 1
@@ -331,7 +331,7 @@ def r5(ctx: Context, sites) -> None:
         ss = [s for s in sites if s.func is o]
         if ss:
             txt = ast.unparse(o.node)
-            per_key = any(isinstance(n, ast.For) and "key_serialized_arguments.items()" in ast.unparse(n.iter) and "JOIN" in ast.unparse(n) and "arg_key = ?" in ast.unparse(n) and "arg_value = ?" in ast.unparse(n) for n in walk_no_nested(o.node))
+            per_key = any(isinstance(n, ast.For) and f"{o.params[2]}.items()" in ast.unparse(n.iter) and "JOIN" in ast.unparse(n) and "arg_key = ?" in ast.unparse(n) and "arg_value = ?" in ast.unparse(n) for n in walk_no_nested(o.node))
             # equivalent relational-division form: ONE join with OR-ed (key = ? AND value = ?) pairs,
             # GROUP BY invocation, HAVING COUNT(DISTINCT arg_key) = number of pairs (distinct KEYS, since
             # two keys may carry the same value and one key never carries two)
@@ -339,7 +339,7 @@ def r5(ctx: Context, sites) -> None:
             flat = " ".join(strs.split())
             division = ("ARG_KEY = ? AND" in flat and "ARG_VALUE = ?" in flat and " OR " in f" {flat} " and "GROUP BY" in flat and "INVOCATION_ID" in flat.split("GROUP BY", 1)[-1][:40]
                         and "HAVING COUNT(DISTINCT" in flat and flat.split("HAVING COUNT(DISTINCT", 1)[1].split(")", 1)[0].strip().endswith("ARG_KEY")
-                        and any(isinstance(c, ast.Call) and call_name(c) == "len" and c.args and "key_serialized_arguments" in ast.unparse(c.args[0]) for c in ast.walk(o.node)))
+                        and any(isinstance(c, ast.Call) and call_name(c) == "len" and c.args and o.params[2] in ast.unparse(c.args[0]) for c in ast.walk(o.node)))
             okj = per_key or division
             why = "not every key/value pair constrains the result (one inner JOIN per pair on arg_key AND arg_value)"
             if not okj and "HAVING COUNT(" in flat:
